@@ -38,6 +38,10 @@ type Profile struct {
 	// unsubscribe what has been confirmed to them and send no ill-formed requests.
 	Protocol bool
 	Throttle bool // draw reference/reset throttle settings
+	// Prologue: percentage of cases that start with connections that subscribe to
+	// a few resources with everything answered successfully (and a token set), so
+	// that the random phase starts from established subscriptions.
+	Prologue int
 }
 
 // Gen generates and executes ops statefully.
@@ -229,10 +233,10 @@ func (g *Gen) Step() bool {
 	}
 	if len(pend) > 0 {
 		n := len(pend)
-		if n > 6 {
-			n = 6
+		if n > 8 {
+			n = 8
 		}
-		cs = append(cs, choice{g.wt("answer") * (1 + n) / 2, func() { g.opAnswer(pend) }})
+		cs = append(cs, choice{g.wt("answer") * (1 + n), func() { g.opAnswer(pend) }})
 	}
 	if len(g.names) > 0 {
 		cs = append(cs,
@@ -657,4 +661,44 @@ func (g *Gen) opHTTP(method string) {
 	}
 	g.http++
 	g.w.Exec(Op{K: "http", C: g.http, M: method, S: url, P: body})
+}
+
+// RunPrologue establishes 1-2 connections with confirmed subscriptions.
+func (g *Gen) RunPrologue() {
+	nc := rapid.IntRange(1, 2).Draw(g.t, "pconns")
+	if nc > g.p.MaxConns {
+		nc = g.p.MaxConns
+	}
+	for i := 0; i < nc; i++ {
+		g.opConnect()
+	}
+	for _, c := range g.openConns() {
+		if rapid.IntRange(0, 2).Draw(g.t, "ptoken") > 0 {
+			g.w.Exec(Op{K: "token", C: c.Idx, P: g.sample("token", []string{`{"u":1}`, `{"u":2}`, `"tok"`}), S: g.sample("tid", []string{"t1", "t2", ""})})
+		}
+		n := rapid.IntRange(1, 3).Draw(g.t, "psubs")
+		for j := 0; j < n; j++ {
+			g.w.Exec(Op{K: "creq", C: c.Idx, ID: g.nextID(c), M: "subscribe." + g.sample("rid", g.rids)})
+		}
+	}
+	for i := 0; i < 200; i++ {
+		pend := g.w.PendingSorted()
+		if len(pend) == 0 {
+			break
+		}
+		pv := pend[0]
+		for _, x := range pend {
+			if x.P.Seq < pv.P.Seq {
+				pv = x
+			}
+		}
+		op := Op{K: "ans", S: pv.P.Subject, Q: pv.P.Query, A: actorEnc(pv.Actor), N: pv.Ord, O: "ok"}
+		if strings.HasPrefix(pv.P.Subject, "access.") {
+			op.P = `{"get":true,"call":` + jstr(g.sample("calllist", g.callLists())) + `}`
+		}
+		g.w.Exec(op)
+		if g.w.Failed != "" || g.w.Deadlock != "" {
+			return
+		}
+	}
 }
